@@ -63,12 +63,15 @@ Inductive rq :=
 | RRaw (raw : bytes).             (* any other bytes *)
 Definition rq_bytes (q : rq) : bytes := match q with RAbs r _ => render_request r | RRaw raw => raw end.
 
+(* one way the bytes of the connection arrived: a cut specification per request, with what the
+   implementation did: the final outcome and the cumulative count of forwarded bytes after each piece *)
+Definition run := (list cutspec * N * list N)%type.
+
 Inductive fcase :=
-(* a whole client connection through the real HttpProtocolHandler + HttpProxyPlugin: the requests with their
-   segmentation, the final outcome, everything the upstream socket was sent, and the cumulative count of
-   forwarded bytes after each piece *)
-| FConn (cfg : fcfg) (connect_ok : bool) (reqs : list (rq * cutspec)) (exp_outcome : N) (exp_up : bytes)
-        (exp_counts : list N)
+(* a whole client connection through the real HttpProtocolHandler + HttpProxyPlugin: the requests, one or more
+   segmentations of the same bytes (each run on a new connection), and everything the upstream socket was sent
+   (the same for all the runs listed) *)
+| FConn (cfg : fcfg) (connect_ok : bool) (reqs : list rq) (runs : list run) (exp_up : bytes)
 (* the reference request parser against h11's reading of the same bytes (used on forwarded bytes of requests
    OUTSIDE the grammar; for the others it is part of FConn) *)
 | FRef (w : bytes) (exp : option fwd).
@@ -82,10 +85,10 @@ Definition no_auth (cfg : fcfg) : fcfg :=
 (* the abstract requests: inside the theorems' domain; the forwarded request the theorems promise is the one
    the harness demands; and the reference parser reads exactly that out of the i-th forwarded byte string
    (credentials are only asked of the first request of a connection) *)
-Fixpoint check_abs (cfg : fcfg) (first : bool) (reqs : list (rq * cutspec)) (queue : list bytes) : bool :=
+Fixpoint check_abs (cfg : fcfg) (first : bool) (reqs : list rq) (queue : list bytes) : bool :=
   match reqs with
   | [] => true
-  | (RAbs r e, _) :: t =>
+  | RAbs r e :: t =>
       let cfg' := if first then cfg else no_auth cfg in
       wf_request r && wf_cfg cfg' && auth_passes cfg' r && fwd_eqb (expected_fwd cfg' r) e &&
       match queue with
@@ -93,32 +96,52 @@ Fixpoint check_abs (cfg : fcfg) (first : bool) (reqs : list (rq * cutspec)) (que
       | [] => false
       end &&
       check_abs cfg false t (tl queue)
-  | (RRaw _, _) :: t => check_abs cfg false t (tl queue)
+  | RRaw _ :: t => check_abs cfg false t (tl queue)
   end.
 (* the abstract part is only judged on the leading run of abstract requests (the harness puts raw
    requests last) *)
-Fixpoint abs_prefix (reqs : list (rq * cutspec)) : list (rq * cutspec) :=
+Fixpoint abs_prefix (reqs : list rq) : list rq :=
   match reqs with
-  | (RAbs r e, c) :: t => (RAbs r e, c) :: abs_prefix t
+  | RAbs r e :: t => RAbs r e :: abs_prefix t
   | _ => []
   end.
 
+Fixpoint pieces_of (datas : list bytes) (cuts : list cutspec) : list bytes :=
+  match datas, cuts with
+  | d :: dt, c :: ct => cut_pieces d c ++ pieces_of dt ct
+  | d :: dt, [] => d :: pieces_of dt []
+  | [], _ => []
+  end.
+
+Definition run_one (cfg : fcfg) (ok : bool) (datas : list bytes) (cuts : list cutspec) : outcome * list N :=
+  feed_obs cfg ok init_state (pieces_of datas cuts) [].
+
+Definition check_run (cfg : fcfg) (ok : bool) (datas : list bytes) (eu : bytes) (rn : run) : bool :=
+  let '(cuts, eo, ec) := rn in
+  let '(o, counts) := run_one cfg ok datas cuts in
+  (outcome_code o =? eo) && bytes_eqb (upstream_bytes (outcome_state o)) eu && list_N_eqb counts ec.
+
 Definition check_case (c : fcase) : bool :=
   match c with
-  | FConn cfg ok reqs eo eu ec =>
-      let pieces := flat_map (fun qc => cut_pieces (rq_bytes (fst qc)) (snd qc)) reqs in
-      let '(o, counts) := feed_obs cfg ok init_state pieces [] in
-      (outcome_code o =? eo) && bytes_eqb (upstream_bytes (outcome_state o)) eu && list_N_eqb counts ec &&
-      (negb ok || check_abs cfg true (abs_prefix reqs) (upstream_queue (outcome_state o)))
+  | FConn cfg ok reqs runs eu =>
+      let datas := map rq_bytes reqs in
+      forallb (check_run cfg ok datas eu) runs &&
+      (negb ok ||
+       match runs with
+       | (cuts, _, _) :: _ =>
+           check_abs cfg true (abs_prefix reqs) (upstream_queue (outcome_state (fst (run_one cfg ok datas cuts))))
+       | [] => false
+       end)
   | FRef w e => option_eqb fwd_eqb (ref_parse_request w) e
   end.
 
 (* model output for replay files *)
 Definition run_case (c : fcase) :=
   match c with
-  | FConn cfg ok reqs _ _ _ =>
-      let pieces := flat_map (fun qc => cut_pieces (rq_bytes (fst qc)) (snd qc)) reqs in
-      let '(o, counts) := feed_obs cfg ok init_state pieces [] in
-      Some (outcome_code o, upstream_bytes (outcome_state o), counts)
+  | FConn cfg ok reqs runs _ =>
+      let datas := map rq_bytes reqs in
+      Some (map (fun rn : run => let '(cuts, _, _) := rn in
+                                 let '(o, counts) := run_one cfg ok datas cuts in
+                                 (outcome_code o, upstream_bytes (outcome_state o), counts)) runs)
   | _ => None
   end.
